@@ -152,7 +152,16 @@ def tweak_texts(r, L, R):
         return [(n, a) for n in t.iter() for a in ("text", "tail") if getattr(n, a) and (a == "text" or n is not t) and (n.kind == "e" or a == "tail")]
 
     m = r.random()
-    if m < 0.08:
+    if m < 0.04:
+        # (f) pairs for which the engine's cleaned-up answer has an insertion directly followed by a deletion
+        k = r.randrange(1 << 30)
+        a_, b_ = r.choice([("abaab", "aaabaaaa"), ("abbcbbccc", "cbcbbb"), ("babba", "bbbabbbb"), ("  aa  aba", "baa   ")])
+        for t, wv in ((L, a_), (R, b_)):
+            sl = slots(t)
+            if sl:
+                n, a = sl[k % len(sl)]
+                setattr(n, a, wv)
+    elif m < 0.08:
         # (e) the same word replaced by the same other word at two places of one text (the same pair of blocks reaches
         # diff_bisect twice within one text diff)
         k = r.randrange(1 << 30)
